@@ -34,11 +34,11 @@ func main() { vlib.Run("C33", run) }
 
 func run(c *vlib.Ctx) {
 	c.Rule("case = one random tree (depth <= 4; each directory basic or HAMT with fan-out 8/16/32/64/256 forced through NewHAMTDirectory, 0..MaxEntries entries inserted in random order; names include dag-pb field names, list indices, strings shaped like HAMT link labels, blanks, %, unicode; leaves are files of several layouts and symlinks). Every existing path (trees above 160 entries: every directory plus 160 sampled entries) is resolved with ResolveToLastNode, ResolvePath and ResolvePathComponents; per directory (at most 24 per tree) a set of non-existing names (fresh, edited/re-cased/truncated existing names, the raw shard link labels of existing entries, bare shard prefixes, 'Links'/'Data') is resolved as last segment and followed by further segments; a few paths continue below a file. Strata: small (<= 12 entries/dir), wide (root HAMT with up to 400 entries => >= 2 shard levels at fan-out 8/16), deep (depth 4). distinct = FNV of the tree listing + queries; non-trivial = the tree has a HAMT with >= 2 shard levels measured by a plain dag-pb walk, an existing path crossing >= 2 directories one of which is a HAMT was resolved, and a missing name was checked both inside a HAMT and in the middle of a path")
-	c.Cases("small", c.N(260, 3000), func(k *vlib.Case) { oneTree(k, ufsgen.TreeOpts{MaxDepth: 3, MaxEntries: 12, MaxFileSize: 600, Symlinks: true}) })
-	c.Cases("wide", c.N(120, 1200), func(k *vlib.Case) { oneTree(k, ufsgen.TreeOpts{MaxDepth: 2, MaxEntries: 400, SubEntries: 30, MaxFileSize: 80, Symlinks: true, RootHAMT: 1}) })
-	c.Cases("deep", c.N(120, 1200), func(k *vlib.Case) { oneTree(k, ufsgen.TreeOpts{MaxDepth: 4, MaxEntries: 30, SubEntries: 14, MaxFileSize: 200, Symlinks: true}) })
+	c.Cases("small", c.N(260, 1500), func(k *vlib.Case) { oneTree(k, ufsgen.TreeOpts{MaxDepth: 3, MaxEntries: 12, MaxFileSize: 600, Symlinks: true}) })
+	c.Cases("wide", c.N(120, 600), func(k *vlib.Case) { oneTree(k, ufsgen.TreeOpts{MaxDepth: 2, MaxEntries: 400, SubEntries: 30, MaxFileSize: 80, Symlinks: true, RootHAMT: 1}) })
+	c.Cases("deep", c.N(120, 600), func(k *vlib.Case) { oneTree(k, ufsgen.TreeOpts{MaxDepth: 4, MaxEntries: 30, SubEntries: 14, MaxFileSize: 200, Symlinks: true}) })
 	// HAMT directories without entries (listed finding) only occur here
-	c.Cases("empty-hamt", c.N(16, 200), func(k *vlib.Case) { oneTree(k, ufsgen.TreeOpts{MaxDepth: 2, MaxEntries: 6, MaxFileSize: 100, Symlinks: true, EmptyHAMT: true}) })
+	c.Cases("empty-hamt", c.N(16, 100), func(k *vlib.Case) { oneTree(k, ufsgen.TreeOpts{MaxDepth: 2, MaxEntries: 6, MaxFileSize: 100, Symlinks: true, EmptyHAMT: true}) })
 }
 
 // emptyHamtErr recognises the listed finding: boxo writes a HAMT directory
